@@ -629,7 +629,7 @@ class LinComb:
             if self.value < 0 or self.value.bit_length() > bits:
                 raise AssertionError(err if err is not None else str(self.value) + " is not a " + str(bits) + "-bit positive integer")
 
-        self.to_bits()
+        self.to_bits(bits)
         
     def check_zero(self):
         """
